@@ -419,10 +419,19 @@ def discharge(obls, timeout_s=20, jobs=16, all_backends=False, keep_dir=None, re
                     elif r == "sat" and verdicts[i] is None and "inst" not in bname:
                         verdicts[i] = Verdict(obls[i].name, obls[i].kind, "refuted", bname, t_used[i], model=out)
 
+        def skip_siblings():
+            # obligations of a function that already has a refuted obligation are moot: the ladder is not spent on them
+            bad = {obls[i].fn for i in range(n) if verdicts[i] is not None and verdicts[i].status == "refuted" and obls[i].fn}
+            for i in range(n):
+                if verdicts[i] is None and obls[i].fn in bad and obls[i].fn not in ("lemma", "struct"):
+                    verdicts[i] = Verdict(obls[i].name, obls[i].kind, "skipped", "-", t_used[i],
+                                          detail="not pursued: another obligation of this function is refuted")
+
         todo = [i for i in range(n) if verdicts[i] is None]
         raw_texts = {}
         # phase A: z3 5.1 on the simplified (beta-reduced) query
         prove_phase(todo, [("z3-5.1", z3new)], lambda i: texts[i])
+        skip_siblings()
         # phase B: everything that is left, in other formulations and on the other back ends - a true obligation must not
         # depend on one solver's heuristics (verdicts must not flip under load)
         left = [i for i in todo if verdicts[i] is None]
@@ -432,7 +441,10 @@ def discharge(obls, timeout_s=20, jobs=16, all_backends=False, keep_dir=None, re
             except Exception:
                 pass
         prove_phase([i for i in left if i in raw_texts], [("z3-5.1(raw)", z3new)], lambda i: raw_texts[i])
+        skip_siblings()
+        left = [i for i in left if verdicts[i] is None]
         prove_phase(left, [("cvc5", cvc5), ("z3-4.8", z3old)], lambda i: texts[i])
+        skip_siblings()
         # phase C: goal-directed ground instances added (proving from a subset of instances is sound)
         left = [i for i in todo if verdicts[i] is None]
         inst_text = {}
